@@ -18,6 +18,7 @@ func init() {
 		Explain: "Decides the RPC client's subscriber-channel safety for every interleaving of incoming records with Stop/Close as lock-discipline facts: for each stream handler type (monitor, event stream, query) every send on a subscriber channel and the close of it happen while the handler's own mutex is held, the send is behind closed==false read in that critical section, the close is behind !closed with closed=true stored in the same section (exactly once, never a send after close); Cleanup is invoked only by the two deregistration functions, each only for entries it removed from the dispatch table under the dispatch lock; the handler's flags are only accessed under its mutex; and the record path from the connection (listen → respondSeq → Handle) contains no undischarged panic obligation.",
 		Run:     runC28,
 		Mutants: []Mutant{
+			{Name: "cleanup-skips-close-before-init", File: "client/rpc_client.go", Func: "func (mh *monitorHandler) Cleanup(", Old: "\tmh.l.Lock()\n\tdefer mh.l.Unlock()\n", New: "\tmh.l.Lock()\n\tdefer mh.l.Unlock()\n\tif !mh.closed && !mh.init {\n\t\tmh.closed = true\n\t\treturn\n\t}\n", Expect: "R2|monitorHandler:cleanup-always-closes"},
 			{Name: "monitor-send-unlocked", File: "client/rpc_client.go", Func: "func (mh *monitorHandler) Handle(", Old: "\tmh.l.Lock()\n\tdefer mh.l.Unlock()\n\tif mh.closed {\n\t\treturn\n\t}\n", New: "\tif mh.closed {\n\t\treturn\n\t}\n", Expect: "R1"},
 			{Name: "stream-send-ignores-closed", File: "client/rpc_client.go", Func: "func (sh *streamHandler) Handle(", Old: "\tif sh.closed {\n\t\treturn\n\t}\n", New: "", Expect: "R1"},
 			{Name: "query-cleanup-unlocked", File: "client/rpc_client.go", Func: "func (qh *queryHandler) Cleanup(", Old: "\tqh.l.Lock()\n\tdefer qh.l.Unlock()\n", New: "", Expect: "R"},
@@ -80,6 +81,22 @@ func runC28(c *an.Ctx) {
 					c.Add(a.Init, "R1", typ+":chan-assigned:"+ch, a.Instr, ch+" is only assigned at construction", "init store")
 				}
 			}
+			// exactly once also means: not zero times. Every way through Cleanup that finds the handler
+			// not yet closed closes this channel (an early return would leave the subscriber blocked for ever)
+			isClose := func(in ssa.Instruction) bool {
+				call, ok := in.(*ssa.Call)
+				if !ok {
+					return false
+				}
+				b, ok := call.Call.Value.(*ssa.Builtin)
+				return ok && b.Name() == "close" && an.Path(call.Call.Args[0]) == "$0."+ch
+			}
+			already := an.EdgesImplying(cl, an.Cmp{L: "$0.closed", Op: "==", R: "c:true"})
+			already = append(already, an.EdgesImplying(cl, an.Cmp{L: "$0." + ch, Op: "==", R: "c:nil"})...) // no channel was requested
+			esc := an.ReachFrom(cl, nil, &an.Cut{Edges: already, Instrs: isClose}, func(in ssa.Instruction) bool {
+				return an.IsExit(in) && in.Block().Comment != "recover"
+			})
+			c.Add(esc == nil, "R2", typ+":cleanup-always-closes:"+ch, cl, "every path through Cleanup on a not-yet-closed handler closes "+typ+"."+ch, "must-pass (reach/cut) from entry to the exits")
 			c.Floor("R1", "sends on "+typ+"."+ch, nS, 1)
 			c.Floor("R2", "closes of "+typ+"."+ch, nC, 1)
 		}
